@@ -148,8 +148,11 @@ def run_op_case(ns, mon, case):
     outs = list(out) if isinstance(out, (tuple, list)) else [out]
     first = [o.data.copy() for o in outs]
     aliases = any(np.shares_memory(o.data, x) for o in outs for x in xs if isinstance(x, np.ndarray))
-    # repeat on unchanged operands: bit-identical
+    # repeat on unchanged operands: bit-identical - also when other library calls (other ops, other dtypes) ran in between
     if op.name != "dropout":
+        if case["seed"] % 2:
+            disturb(ns)
+            counters["repeats_after_other_calls"] = 1
         with np.errstate(all="ignore"):
             _, out2 = fwd(False)
         outs2 = list(out2) if isinstance(out2, (tuple, list)) else [out2]
@@ -181,6 +184,28 @@ def run_op_case(ns, mon, case):
             mon.drain()
             return {"counters": dict(counters, backward_rejected=1)}
         counters["backward_snapshots"] = 1
+        if op.name != "dropout" and case["seed"] % 3 != 1:
+            # the same sweep over the same graph once more (gradients reset in between, same upstream tensors): bit-identical gradients
+            try:
+                lv_ = [t for t in ts if t.requires_grad and t.grad_fn is None and t._grad is not None]
+                uniq_ = []
+                for t in lv_:
+                    if not any(t is u for u in uniq_):
+                        uniq_.append(t)
+                g1_ = [digest(t._grad) for t in uniq_]
+                for t in uniq_:
+                    t._grad = None
+                if case["seed"] % 2:
+                    disturb(ns)
+                for o, gt in zip(outs, gts):
+                    o.backward(gt)
+                counters["repeated_sweep_digests"] = 1
+                g2_ = [None if t._grad is None else digest(t._grad) for t in uniq_]
+                if g1_ != g2_:
+                    viol.append(V(f"{sig}:repeated-backward-not-bit-identical", "a second backward sweep over the same graph (gradients reset in between, same upstream "
+                                  "gradient) gave other bits than the first", args=a))
+            except Exception as e:
+                viol.append(V(f"{sig}:repeated-backward-raises", f"a second backward sweep over the same graph raised {type(e).__name__}", error=str(e)[:160], args=a))
         # the result is the operand of whatever the caller computes from it next: backward must leave its data as the forward returned it
         with np.errstate(all="ignore"):
             if any(o.data.shape != p.shape or o.data.dtype != p.dtype or not np.array_equal(o.data, p, equal_nan=True) for p, o in zip(first, outs)):
@@ -225,6 +250,28 @@ def run_op_case(ns, mon, case):
     key = (sig, case["storage"], argclass, case["dtype"]) if nontriv else None
     return {"key": key, "viol": dedup(viol), "counters": dict(counters, result_aliases_operand=int(aliases)),
             "cover": {"ops": [sig], "storage": [case["storage"]]}}
+
+
+def disturb(ns):
+    """a fixed handful of unrelated library calls in both dtypes (what a program does between two uses of an op): none of them may change what
+    a later call of another op returns"""
+    T, sg, nn = ns.Tensor, ns.sg, ns.nn
+    with np.errstate(all="ignore"):
+        for dt_ in (np.float32, np.float64):
+            p_ = T(np.array([[0.2, 0.7], [0.6, 0.4]], dtype=dt_), requires_grad=True)
+            t_ = T(np.array([[0.0, 1.0], [1.0, 0.0]], dtype=dt_))
+            z_ = T(np.array([[1.5, -2.0, 0.3], [0.1, 0.2, -0.7]], dtype=dt_), requires_grad=True)
+            try:
+                (sg.binary_cross_entropy(p_, t_).sum() + nn.BCELoss()(p_, t_) + sg.binary_cross_entropy_with_logits(p_, t_).sum() + nn.MSELoss()(p_, t_)).backward()
+                (p_.log().sum() + p_.sqrt().sum() + (p_ ** 0.5).sum() + p_.exp().sum()).backward()
+                (sg.softmax(z_, 1).sum() + sg.log_softmax(z_, 0).sum() + nn.CrossEntropyLoss()(z_, T(np.array([2, 0]))) + sg.selu(z_).sum() + sg.sigmoid(z_).max()).backward()
+                sg.conv1d(z_.reshape((1, 2, 3)), T(np.ones((1, 2, 2), dtype=dt_)), None, 1, 1).sum().backward()
+                sg.max_pool1d(z_.reshape((1, 2, 3)), 2, 1, 1).sum().backward()
+                bn_ = nn.BatchNorm1d(3, dtype=dt_); bn_(z_).sum().backward(); bn_.eval(); bn_(z_)
+                nn.Linear(3, 2)(T(z_.data.astype(np.float32))).sum().backward()
+                sg.unfold(T(np.ones((1, 1, 3, 3), dtype=dt_)), 2, 1, 1, 1); z_.unfold(1, 2, 1).mean().backward()
+            except Exception:
+                pass
 
 
 def dedup(viol):
@@ -462,6 +509,23 @@ def run_mutators(ns, mon, case):
             if seed_.data is not sd0_ or tuple(seed_.shape) != tuple(ss) or tuple(sarr_.shape) != tuple(ss) or tuple(alias_.shape) != tuple(ss) or not np.array_equal(sarr_, keep_):
                 viol.append(V("backward:caller-gradient-reshaped-or-modified", f"backward(seed) with a seed of shape {list(ss)} for a root of shape {list(rshape)} changed the caller's "
                               f"seed (now shape {list(seed_.shape)} / array shape {list(sarr_.shape)})"))
+    # ... nor converted in place when its floating dtype differs from the root's
+    for rdt, sdt in ((np.float32, np.float64), (np.float64, np.float32)):
+        for shp_ in ((), (3,), (2, 2)):
+            leaf_ = T(rng.standard_normal(shp_).astype(rdt), requires_grad=True)
+            root_ = leaf_ * 2.0
+            sarr_ = (rng.standard_normal(shp_) * 1.000000123).astype(sdt)
+            keep_ = sarr_.copy()
+            seed_ = T(sarr_)
+            sd0_ = seed_.data
+            try:
+                root_.backward(seed_)
+            except Exception:
+                pass
+            n += 1
+            if seed_.data is not sd0_ or seed_.dtype != np.dtype(sdt) or sarr_.dtype != np.dtype(sdt) or not np.array_equal(sarr_, keep_) or not np.array_equal(seed_.data, keep_):
+                viol.append(V("backward:caller-gradient-converted-in-place", f"backward(seed) with a {np.dtype(sdt).name} seed for a {np.dtype(rdt).name} root changed the caller's seed tensor "
+                              f"(now {seed_.dtype}, same array: {seed_.data is sd0_})"))
     viol += mon.drain()
     return {"keys": [("mutators", i) for i in range(2)], "evals": n, "viol": dedup(viol), "counters": {"mutator_checks": n}}
 
